@@ -164,8 +164,10 @@ typesame(struct type *t1, struct type *t2)
 struct type *
 typecomposite(struct type *t1, struct type *t2)
 {
-	/* XXX: implement 6.2.7 */
+	/* XXX: implement the rest of 6.2.7 */
 	/* XXX: merge with typecompatible? */
+	if (t1->kind == TYPEARRAY && t2->kind == TYPEARRAY && t1->incomplete && !t2->incomplete)
+		return t2;
 	return t1;
 }
 
